@@ -196,6 +196,15 @@ def r02_2(prog, rep):
     # a reference back as it is, so some path of the decision evaluates it
     via_ref = [x for x in guards_subject if T.contains(x, lambda y: T.is_call_to(y, "typelib.py.refs.evaluate"))]
     rep.check(bool(via_ref), "R02.2", f.qualname, f.loc, "a reference is evaluated before the verbatim-bytes decision", "the verbatim-bytes decision never evaluates a reference: for t = 'bytes', ForwardRef('bytes'), TypeAliasType('Blob', 'bytes') or Final['bytes'] the routines are the bytes routines while the coders are JSON -- encode raises TypeError, decode(b'\"abc\"') silently returns b'abc'", detail="bytes-guard-reference")
+    ref_tests = []
+    for pth in ps:
+        if any(T.contains(g, lambda y: T.is_call_to(y, "typelib.py.refs.evaluate")) for g, _ in pth.guards()):
+            for g, pol in pth.guards():
+                if pol and T.is_call_to(g, "builtins.isinstance") and len(g[2]) == 2 and T.contains(g[2][0], lambda y: T.is_call_to(y, f"{C.INSP}.unwrap")):
+                    ref_tests.append({T.refname(x) for x in (P.flatten_display(prog, g[2][1]) or [g[2][1]])})
+    if via_ref and ref_tests:
+        both = all({"builtins.str", "typing.ForwardRef"} <= n for n in ref_tests)
+        rep.check(both, "R02.2", f.qualname, f.loc, "a reference is a str or a ForwardRef: both are evaluated", f"the reference test of the verbatim-bytes decision covers {sorted(set().union(*ref_tests))} only: the other way of naming bytes (a plain string / a ForwardRef object, which is what a string-valued alias unwraps to) still gets the JSON coders around the bytes routines", detail="bytes-guard-reference-kinds")
     del want_m
     cod = prog.cls("typelib.codecs.Codec")
     fields = [s.target.id for s in cod.node.body if isinstance(s, ast.AnnAssign) and isinstance(s.target, ast.Name)]
